@@ -43,6 +43,8 @@ ATOMS = ALPHABET + ["b", "x1", "`a b`", "`", "``", "{", "}", "{a+b}", "{a +", "f
                    "&", ";", "?", "1e5", "1.", ".5", "00", "1_000", "0x1", "-0", "+0", "- 0", "f(``)", "f(`class`)", "I(`x`", "{`}", "`{`", "C(a, contr.treatment)",
                    "lambda", "class", "None", "a:b:c", "a*b", "(", ")", "log(d[0].x)", "f((a + b).real)", "{d[0].x}", "np.log(df['y'].values)",
                    "**'2'", "^\"b\"", "**...", "**('x')", "**1e2", "**True", "**None", "f('a'.upper())", "{[i for i in a]}", "{lambda: 0}", "f(*a, **b)", "{a if b else c}", "~", "~", "~",
+                   # lone surrogates (a Python str may hold them; Python itself cannot compile them)
+                   'f("\ud800")', "{\udfff}", "\ud800", "`\ud800`", "g(a\udc00)",
                    # exponents far beyond anything enumerable: only their parity with the number of terms can matter
                    "[c ~ d]", "[c~a] +", "2:a", "2:a +", "3:b:a", "2:a_hat", "+ .", "2.5:y", "**99999999999999999999", "^9999999999", "**(12345678901234567890123)", "** 18446744073709551616", "**7", "^12", "**40", "**5"]
 FLAGSETS = c01.FLAG_SUBSETS
